@@ -2,6 +2,7 @@ mod c02;
 mod c03;
 mod c07;
 mod c12;
+mod c16;
 mod core;
 mod logcap;
 mod sched;
@@ -15,6 +16,7 @@ fn main() {
         "c03" => c03::run(&args),
         "c07" => c07::run(&args),
         "c12" => c12::run(&args),
+        "c16" => c16::run(&args),
         other => {
             eprintln!("unknown property or tool: {}", other);
             std::process::exit(64);
